@@ -71,7 +71,7 @@ impl Minimums {
 impl<K, V> RecursiveContext<K, V>
 where
     K: Hash + Eq + Debug + Clone,
-    V: Debug + Clone,
+    V: Debug + Clone + PartialEq,
 {
     pub fn new(overflow_depth: usize, max_size: usize, cache: Option<Cache<K, V>>) -> Self {
         RecursiveContext {
@@ -250,6 +250,13 @@ where
                 std::mem::replace(&mut self.search_graph[dfn].solution, current_answer);
 
             if solver_stuff.reached_fixed_point(&old_answer, &self.search_graph[dfn].solution) {
+                if old_answer != self.search_graph[dfn].solution {
+                    // We stop although the answer still changed in this
+                    // iteration (it became ambiguous). What the other members
+                    // of the cycle computed was based on the previous answer,
+                    // so it must not be kept, let alone cached.
+                    self.search_graph.rollback_to(dfn + 1);
+                }
                 return *minimums;
             }
 
